@@ -83,6 +83,10 @@ def _problem(rng, n, kind, sparse_jac=False, scale=1.0):
     J = (lambda y: scipy.sparse.csr_matrix(Jd(y))) if sparse_jac else Jd
     return F, J, Jd
 
+class _AttemptLimit(Exception):
+    """raised by the recording step wrappers after ATTEMPT_LIMIT attempts of one driver run: the run decides nothing"""
+ATTEMPT_LIMIT = 30000
+
 class Hooks:
     """Recording wrappers on the module globals of pyiga.solvers."""
     def __init__(self, rec):
@@ -101,6 +105,7 @@ class Hooks:
             return r
         def dirk_step(A, M, F, J, x, tau, data=None, Fx=None):
             rec.count('hook:step_attempt')
+            if len(self.attempts) >= ATTEMPT_LIMIT: raise _AttemptLimit()
             e = {'type': 'dirk', 'A': np.array(A), 'x': np.array(x, dtype=float), 'tau': float(tau), 'xobj': x, 'Fx': None if Fx is None else np.array(Fx)}
             self.attempts.append(e)
             try:
@@ -111,6 +116,7 @@ class Hooks:
             return r
         def rosenbrock_step(A, Gamma, b, b_hat, M, F, J, x, tau, data, Fx=None):
             rec.count('hook:step_attempt')
+            if len(self.attempts) >= ATTEMPT_LIMIT: raise _AttemptLimit()
             e = {'type': 'ros', 'A': np.array(A), 'Gamma': np.array(Gamma), 'b': np.array(b), 'b_hat': None if b_hat is None else np.array(b_hat),
                  'x': np.array(x, dtype=float), 'tau': float(tau), 'xobj': x, 'Fx': None if Fx is None else np.array(Fx)}
             self.attempts.append(e)
@@ -342,13 +348,17 @@ def _driver(rec, case, h):
     sig = {'route': 'driver', 'method': name, 'adaptive': adaptive}
     meth = getattr(solvers, name)
     h.attempts.clear(); h.newton_log.clear()
-    with contextlib.redirect_stdout(io.StringIO()):
+    try:
+      with contextlib.redirect_stdout(io.StringIO()):
         if not adaptive_capable:
             ok, r = guarded(rec, c, sig, meth, Mop, F, J, x0, tau0, t_end, t0=t0)
         elif adaptive:
             ok, r = guarded(rec, c, sig, meth, Mop, F, J, x0, tau0, t_end, tol, t0=t0, step_factor=sf)
         else:
             ok, r = guarded(rec, c, sig, meth, Mop, F, J, x0, tau0, t_end, None, t0=t0)
+    except _AttemptLimit:
+        # a run that needs more attempts than the harness allows decides nothing (bounded workload, not a verdict on progress)
+        rec.count('driver_run_stopped_at_attempt_limit'); rec.case(c, nontrivial=False); return
     rec.case(c, nontrivial=len(h.attempts) >= 2)
     if not ok: return
     times, sols = r
